@@ -1,8 +1,9 @@
 import Varpulis.Model.Zdd
+import Varpulis.Model.ZddTable
 import Varpulis.Driver.Util
 /-! `vmodel zdd`: replays the C06/C07 operation lines on the tree model and judges table dumps. -/
 namespace Varpulis.Driver.ZddD
-open Varpulis.Zdd Varpulis.Driver
+open Varpulis.Zdd Varpulis.ZddT Varpulis.Driver
 
 structure St where
   arena : Bool := true
@@ -46,39 +47,13 @@ def setDest (st : List (Nat × Z)) (d : Nat) (z : Z) (impl : String) : List (Nat
 def parseMember (w : String) : Option (List Nat) :=
   if w == "_" then some [] else (w.splitOn ",").mapM String.toNat?
 
-/-! ### C07 judge on a dumped node table -/
-inductive Ref | e | b | n (i : Nat) deriving DecidableEq, Repr
+/-! ### C07 judge on a dumped node table
+`Ref`, `Node`, `twf`, `treeF`, `judgeTable` live in Model/ZddTable.lean: the judge runs exactly the
+functions the theorems (`judge_sound`, Props/C07.lean) speak about; this file only parses and prints. -/
 
 def parseRef (s : String) : Option Ref :=
-  if s == "E" then some .e else if s == "B" then some .b
-  else if s.startsWith "N" then (s.drop 1).toNat?.map .n else none
-
-structure Node where
-  v : Nat
-  lo : Ref
-  hi : Ref
-  deriving DecidableEq
-
-def childOk (t : Array Node) (own : Nat) (v : Nat) : Ref → Bool
-  | .e => true | .b => true
-  | .n i => i < own && (match t[i]? with | some c => v < c.v | none => false)
-
-/-- table well-formedness: children created before parents, zero-suppressed, variables strictly
-increasing along edges, no duplicate triple (hash-consing). -/
-def twf (t : Array Node) : Bool :=
-  (List.range t.size).all fun i =>
-    match t[i]? with
-    | none => false
-    | some nd => nd.hi != .e && childOk t i nd.v nd.lo && childOk t i nd.v nd.hi
-        && (List.range i).all fun j => t[j]? != some nd
-
-def treeOf (t : Array Node) : Nat → Ref → Z
-  | _, .e => .empty
-  | _, .b => .base
-  | 0, .n _ => .empty
-  | fuel + 1, .n i => match t[i]? with
-      | some nd => .node nd.v (treeOf t fuel nd.lo) (treeOf t fuel nd.hi)
-      | none => .empty
+  if s == "E" then some .E else if s == "B" then some .B
+  else if s.startsWith "N" then (s.drop 1).toNat?.map .N else none
 
 def parseTable (s : String) : Option (Array Node) :=
   if s.isEmpty then some #[] else
@@ -102,15 +77,12 @@ def judgeDump (st : St) (impl : String) : String :=
   | some ts, some rs =>
     match parseTable ts, parseRegs rs with
     | some t, some regs =>
-      if !twf t then "JUDGE C07 table not well-formed (duplicate, unreduced or unordered node)"
-      else
-        let bad := regs.filter fun (r, x) => treeOf t (t.size + 1) x != st.get r
-        if !bad.isEmpty then s!"DIFF register {bad.map (·.1)} denotes a different tree than the model"
-        else
-          -- canonicity: equal families ⇔ equal handles, over all register pairs
-          let viol := regs.any fun (r1, x1) => regs.any fun (r2, x2) =>
-            (sets (st.get r1) == sets (st.get r2)) != (x1 == x2)
-          if viol then "JUDGE C07 two handles with the same family differ (or conversely)" else "ok"
+      match judgeTable t regs st.get with
+      | .ok => "ok"
+      | .notWF => "JUDGE C07 table not well-formed (duplicate, unreduced or unordered node)"
+      | .dangling rs => s!"JUDGE C07 handle of register {rs} dangles (node id beyond the table)"
+      | .wrongTree rs => s!"DIFF register {rs} denotes a different tree than the model"
+      | .notCanonical => "JUDGE C07 two handles with the same family differ (or conversely)"
     | _, _ => "BADLINE"
   | _, _ => "BADLINE"
 
